@@ -15,6 +15,9 @@
 //!        r<gen>                      resolve the fault with that generation (recovery id = gen)
 //!        e<h>.<0|1>                  set_head_eligibility Dormant / Admitted
 //!        x                           replace the provenance service by a fresh, empty, registered one
+//!        g<h>                        craft history: a fresh provenance service holding ONE real local commit of head h whose
+//!                                    commit_global_tick is rewritten to u64::MAX, then restore_causal_runtime_history from it
+//!                                    (public API): the runtime's global tick becomes u64::MAX (GlobalTickOverflow on the next pass)
 //!   beh: 0 applies; 1 applies but shares one written node with every other beh-1 intent (footprint conflict
 //!        => rejected candidates, still a committed tick); 2 emits DeleteEdge of a missing edge (typed engine error);
 //!        3 executor panics; 4 writes a node outside its declared footprint (FootprintViolation unwind);
@@ -161,6 +164,7 @@ enum Op {
     Resolve(u64),
     Elig(usize, bool),
     SwapProv,
+    JumpGlobal(usize),
 }
 struct Case {
     worlds: Vec<WorldlineId>,
@@ -205,6 +209,7 @@ fn parse_case(line: &str) -> Case {
                 "r" => Op::Resolve(f[0].parse().unwrap()),
                 "e" => Op::Elig(f[0].parse().unwrap(), f[1] == "1"),
                 "x" => Op::SwapProv,
+                "g" => Op::JumpGlobal(f[0].parse().unwrap()),
                 _ => panic!("op {s}"),
             }
         })
@@ -260,8 +265,22 @@ struct World {
     fault_class: BTreeMap<u64, String>,     // generation -> class of the pass outcome that recorded it
 }
 
+/// Borrowed view of a world (so that probe copies can be fingerprinted with any engine).
+struct View<'a> {
+    rt: &'a WorldlineRuntime,
+    prov: &'a ProvenanceService,
+    eng: &'a Engine,
+    live: &'a [WriterHeadKey],
+    intents: &'a BTreeMap<(WriterHeadKey, [u8; 32]), IngressEnvelope>,
+}
+impl World {
+    fn view(&self) -> View<'_> {
+        View { rt: &self.rt, prov: &self.prov, eng: &self.eng, live: &self.live, intents: &self.intents }
+    }
+}
+
 /// committed(k, id): the runtime answers Duplicate although the id is not pending.
-fn committed(w: &World, k: &WriterHeadKey, env: &IngressEnvelope) -> bool {
+fn committed(w: &View<'_>, k: &WriterHeadKey, env: &IngressEnvelope) -> bool {
     let id = env.ingress_id();
     let pend = pending_of(w.rt.heads().get(k).unwrap().inbox());
     if pend.contains(&id) {
@@ -272,7 +291,7 @@ fn committed(w: &World, k: &WriterHeadKey, env: &IngressEnvelope) -> bool {
 
 /// Components of the canonical fingerprint (name, value); fault evidence and the derived runnable
 /// order are separate so that the atomicity oracle can exclude exactly them.
-fn fingerprint(w: &World) -> Vec<(String, String)> {
+fn fingerprint(w: &View<'_>) -> Vec<(String, String)> {
     let mut v: Vec<(String, String)> = Vec::new();
     v.push(("gtick".into(), w.rt.global_tick().as_u64().to_string()));
     for (wl, f) in w.rt.worldlines().iter() {
@@ -310,13 +329,13 @@ fn fingerprint(w: &World) -> Vec<(String, String)> {
         v.push((format!("wl{n}.graph"), hex::encode(&blake3::hash(nodes.join(",").as_bytes()).as_bytes()[..8])));
         v.push((format!("wl{n}.root_instance"), s.warp_state().instance(&s.root().warp_id).is_some().to_string()));
     }
-    for k in &w.live {
+    for k in w.live {
         let h = w.rt.heads().get(k).unwrap();
         let n = head_str(k);
         v.push((format!("head{n}.pending"), pending_of(h.inbox()).iter().map(short).collect::<Vec<_>>().join("+")));
         v.push((format!("head{n}.flags"), format!("{:?}/{}/{:?}", h.eligibility(), h.is_paused(), h.inbox().policy())));
     }
-    for ((k, _id), env) in &w.intents {
+    for ((k, _id), env) in w.intents {
         if w.live.contains(k) && committed(w, k, env) {
             v.push((format!("committed.{}.{}", head_str(k), short(&env.ingress_id())), "1".into()));
         }
@@ -447,7 +466,7 @@ fn dump(w: &World) -> String {
         ev.sort();
         let mut cm: Vec<String> = Vec::new();
         for ((k, id), env) in &w.intents {
-            if k.worldline_id == *wl && w.live.contains(k) && committed(w, k, env) {
+            if k.worldline_id == *wl && w.live.contains(k) && committed(&w.view(), k, env) {
                 cm.push(format!("{}/{}", sh(k.head_id.as_bytes()), short(id)));
             }
         }
@@ -532,16 +551,21 @@ fn run_case(line: &str) -> String {
     let mut ids: Vec<String> = Vec::new();
     let mut seen_ids = BTreeSet::new();
     for op in &c.ops {
-        if let Op::Ingest(h, b, t) | Op::Ticketed(h, b, t, _) = op {
-            if seen_ids.insert((*h, *b, *t)) {
-                let env = envelope(w.heads[*h], *b, *t);
+        let named = match op {
+            Op::Ingest(h, b, t) | Op::Ticketed(h, b, t, _) => Some((*h, *b, *t)),
+            Op::JumpGlobal(h) => Some((*h, 0u8, 255u8)),
+            _ => None,
+        };
+        if let Some((h, b, t)) = named {
+            if seen_ids.insert((h, b, t)) {
+                let env = envelope(w.heads[h], b, t);
                 ids.push(format!("{h}.{b}.{t}:{}", hex::encode(env.ingress_id())));
             }
         }
     }
     let mut out: Vec<String> = Vec::new();
     let mut fps: Vec<String> = Vec::new();
-    let (mut n_pass, mut n_fail, mut n_reject, mut n_commits) = (0usize, 0usize, 0usize, 0usize);
+    let (mut n_pass, mut n_fail, mut n_reject, mut n_commits, mut n_probe) = (0usize, 0usize, 0usize, 0usize, 0usize);
     for op in &c.ops {
         match op {
             Op::Ingest(h, b, t) => {
@@ -592,12 +616,58 @@ fn run_case(line: &str) -> String {
                 w.prov = p;
                 out.push("X".into());
             }
+            Op::JumpGlobal(h) => {
+                let k = w.heads[*h];
+                let env = envelope(k, 0, 255);
+                w.intents.insert((k, env.ingress_id()), env.clone());
+                // a real commit of that intent on a scratch runtime with the same registration
+                let mut rt2 = WorldlineRuntime::new();
+                for wl in &c.worlds {
+                    rt2.register_worldline(*wl, WorldlineState::empty()).expect("register worldline");
+                }
+                for hs in &c.heads {
+                    // the scratch runtime only manufactures one real commit: every head plays and accepts all
+                    rt2.register_writer_head(WriterHead::with_routing(hs.key, PlaybackMode::Play, InboxPolicy::AcceptAll, None, false)).expect("register head");
+                }
+                let mut prov2 = ProvenanceService::new();
+                for (wl, f) in rt2.worldlines().iter() {
+                    prov2.register_worldline(*wl, f.state()).expect("provenance register");
+                }
+                let mut eng2 = engine();
+                rt2.ingest(env).expect("scratch ingest");
+                let tok = match SchedulerCoordinator::super_tick(&mut rt2, &mut prov2, &mut eng2) {
+                    Ok(recs) if recs.len() == 1 => {
+                        let mut e = prov2.entry(k.worldline_id, WorldlineTick::from_raw(0)).expect("scratch entry");
+                        e.commit_global_tick = warp_core::GlobalTick::from_raw(u64::MAX);
+                        if let Some(p) = e.patch.as_mut() {
+                            p.header.commit_global_tick = warp_core::GlobalTick::from_raw(u64::MAX);
+                        }
+                        let mut prov3 = ProvenanceService::new();
+                        for (wl, _f) in w.rt.worldlines().iter() {
+                            prov3.register_worldline(*wl, &WorldlineState::empty()).expect("provenance register");
+                        }
+                        match prov3.append_local_commit(e.clone()) {
+                            Err(err) => format!("G:append:{}", format!("{err:?}").split(|c: char| !c.is_alphanumeric()).next().unwrap_or("?")),
+                            Ok(()) => match w.rt.restore_causal_runtime_history(&prov3, &[e], &[]) {
+                                Ok(()) => {
+                                    w.prov = prov3;
+                                    "G:ok".to_string()
+                                }
+                                Err(err) => format!("G:restore:{}", err_class(&err)),
+                            },
+                        }
+                    }
+                    Ok(recs) => format!("G:scratch-recs-{}", recs.len()),
+                    Err(err) => format!("G:scratch:{}", err_class(&err)),
+                };
+                out.push(tok);
+            }
             Op::Resolve(g) => {
                 let fid = w.rt.scheduler_faults().find(|f| f.fault_generation.as_u64() == *g).map(|f| (f.fault_id, f.scope));
                 match fid {
                     None => out.push("R:unknown".into()),
                     Some((fid, scope)) => {
-                        let before = fingerprint(&w);
+                        let before = fingerprint(&w.view());
                         let auth = SchedulerFaultRecoveryAuthority::assume_runtime_owner();
                         let mut rid = [0u8; 32];
                         rid[24..].copy_from_slice(&g.to_be_bytes());
@@ -608,7 +678,7 @@ fn run_case(line: &str) -> String {
                             Err(RuntimeError::UnknownSchedulerFault(_)) => "R:unknown".into(),
                             Err(e) => format!("R:{}", err_class(e)),
                         });
-                        if fingerprint(&w) != before {
+                        if fingerprint(&w.view()) != before {
                             flags.push("resolve-changed-non-fault-state".into());
                         }
                         if res.is_ok() {
@@ -634,7 +704,9 @@ fn run_case(line: &str) -> String {
             }
             Op::Pass => {
                 n_pass += 1;
-                let before = fingerprint(&w);
+                let before = fingerprint(&w.view());
+                let shadow_rt = w.rt.clone();
+                let shadow_prov = w.prov.clone();
                 let faults_before = fault_lines(&w);
                 let fault_records_before: Vec<_> = w.rt.scheduler_faults().cloned().collect();
                 let order = SchedulerCoordinator::peek_order(&w.rt);
@@ -653,7 +725,7 @@ fn run_case(line: &str) -> String {
                     let World { rt, prov, eng, .. } = &mut w;
                     std::panic::catch_unwind(std::panic::AssertUnwindSafe(|| SchedulerCoordinator::super_tick(rt, prov, eng)))
                 };
-                let after = fingerprint(&w);
+                let after = fingerprint(&w.view());
                 let class = match &res {
                     Ok(Ok(_)) => "ok".to_string(),
                     Ok(Err(e)) => err_class(e),
@@ -749,7 +821,7 @@ fn run_case(line: &str) -> String {
                         }
                         for (k, b) in &predicted {
                             for id in b {
-                                if !w.intents.get(&(*k, *id)).is_some_and(|env| committed(&w, k, env)) {
+                                if !w.intents.get(&(*k, *id)).is_some_and(|env| committed(&w.view(), k, env)) {
                                     flags.push("admitted-ingress-not-recorded-as-committed".into());
                                 }
                             }
@@ -757,6 +829,53 @@ fn run_case(line: &str) -> String {
                     }
                     _ => {
                         n_fail += 1;
+                        // hidden state: once the new fault is resolved, the runtime must BEHAVE like the pre-pass
+                        // runtime: with no head / any one head made dormant, the next pass gives the same result and
+                        // the same state on both copies (fresh engine for the pre-pass copy, the real engine for the
+                        // post-failure one, so that engine-side leftovers show up as well)
+                        if new_faults.len() == 1 && !rt_faulted {
+                            let fid = new_faults[0].fault_id;
+                            let mut probes: Vec<Option<WriterHeadKey>> = vec![None];
+                            probes.extend(w.live.iter().map(|k| Some(*k)));
+                            for dormant in probes {
+                                let mut a_rt = shadow_rt.clone();
+                                let mut a_prov = shadow_prov.clone();
+                                let mut b_rt = w.rt.clone();
+                                let mut b_prov = w.prov.clone();
+                                let auth = SchedulerFaultRecoveryAuthority::assume_runtime_owner();
+                                if b_rt.resolve_scheduler_fault(&auth, fid, [9u8; 32]).is_err() {
+                                    flags.push("new-fault-not-resolvable".into());
+                                    break;
+                                }
+                                if let Some(k) = dormant {
+                                    let _ = a_rt.set_head_eligibility(k, HeadEligibility::Dormant);
+                                    let _ = b_rt.set_head_eligibility(k, HeadEligibility::Dormant);
+                                }
+                                let mut a_eng = engine();
+                                let ra = std::panic::catch_unwind(std::panic::AssertUnwindSafe(|| SchedulerCoordinator::super_tick(&mut a_rt, &mut a_prov, &mut a_eng)));
+                                let rb = {
+                                    let eng = &mut w.eng;
+                                    std::panic::catch_unwind(std::panic::AssertUnwindSafe(|| SchedulerCoordinator::super_tick(&mut b_rt, &mut b_prov, eng)))
+                                };
+                                let show = |r: &std::thread::Result<Result<Vec<warp_core::StepRecord>, RuntimeError>>| match r {
+                                    Ok(Ok(recs)) => format!("ok:{}", recs.iter().map(|x| format!("{}={}@{}:{}", head_str(&x.head_key), x.admitted_count, x.worldline_tick_after.as_u64(), short(&x.commit_hash))).collect::<Vec<_>>().join("+")),
+                                    Ok(Err(e)) => err_class(e),
+                                    Err(_) => "panic".into(),
+                                };
+                                n_probe += 1;
+                                if show(&ra) != show(&rb) {
+                                    flags.push("failed-pass-left-hidden-state:next-pass-differs".into());
+                                    break;
+                                }
+                                let fa = fingerprint(&View { rt: &a_rt, prov: &a_prov, eng: &a_eng, live: &w.live, intents: &w.intents });
+                                let fb = fingerprint(&View { rt: &b_rt, prov: &b_prov, eng: &w.eng, live: &w.live, intents: &w.intents });
+                                if fa != fb {
+                                    let comp = fa.iter().zip(fb.iter()).find(|(x, y)| x != y).map(|(x, _)| x.0.clone()).unwrap_or_default();
+                                    flags.push(format!("failed-pass-left-hidden-state:{}", comp.split('.').last().unwrap_or("?")));
+                                    break;
+                                }
+                            }
+                        }
                         // all-or-nothing: everything except fault evidence is exactly as before
                         for (a, b) in before.iter().zip(after.iter()) {
                             if a != b {
@@ -852,7 +971,7 @@ fn run_case(line: &str) -> String {
     flags.sort();
     flags.dedup();
     format!(
-        "ids={} out={} fp={} oracle={} stats=passes:{},failed:{},commits:{},rejected:{}",
+        "ids={} out={} fp={} oracle={} stats=passes:{},failed:{},commits:{},rejected:{},probes:{}",
         if ids.is_empty() { "-".into() } else { ids.join(";") },
         out.join("|"),
         if fps.is_empty() { "-".into() } else { fps.join(",") },
@@ -860,6 +979,7 @@ fn run_case(line: &str) -> String {
         n_pass,
         n_fail,
         n_commits,
-        n_reject
+        n_reject,
+        n_probe
     )
 }
